@@ -169,7 +169,11 @@ def replay_pole_group(geo, group, perturb=False):
     raised = 0
     with np.errstate(all="ignore"):
         try:
-            xs, ys, zs = (np.asarray(a, dtype=float) for a in geo.poles(arg, ref_axes=call_axes, hkl=list(hkl)))
+            if list(hkl) == [1, 0, 0] and axes == "xz":
+                # the documented defaults, left out of the call (second argument positional every other time)
+                xs, ys, zs = (np.asarray(a, dtype=float) for a in (geo.poles(arg) if len(group) % 2 else geo.poles(arg, "xz")))
+            else:
+                xs, ys, zs = (np.asarray(a, dtype=float) for a in geo.poles(arg, ref_axes=call_axes, hkl=list(hkl)))
         except Exception:  # noqa: BLE001 - an in-domain set must not make poles() raise, whatever its representation
             raised = 1
             xs = ys = zs = np.full(len(group), np.nan)
@@ -179,7 +183,14 @@ def replay_pole_group(geo, group, perturb=False):
         exp = [ev(t) for t in c["exp"]]
         with np.errstate(all="ignore"):
             try:
-                one = [scalar(a) for a in geo.poles(mats[i : i + 1].copy(), ref_axes=call_axes, hkl=list(hkl))]
+                # other argument forms of the same call: the direction as a tuple / an integer array / a float array,
+                # the axes string in upper case, positional arguments
+                form = (i + len(hkl) + sum(abs(int(h)) for h in hkl)) % 4
+                hk = (tuple(hkl), np.array(hkl, dtype=np.int64), np.array(hkl, dtype=float), list(hkl))[form]
+                if form == 1:
+                    one = [scalar(a) for a in geo.poles(mats[i : i + 1].copy(), call_axes.upper(), hk)]
+                else:
+                    one = [scalar(a) for a in geo.poles(mats[i : i + 1].copy(), ref_axes=call_axes, hkl=hk)]
             except Exception:  # noqa: BLE001
                 raised = 1
                 one = [float("nan")] * 3
